@@ -33,10 +33,11 @@ func VsymC18_SingleOwner() {
 	w.b = NewLeaseManager(cb, LeaseManagerConfig{BrokerID: "B", Prefix: "/kafscale/partition-leases", ResourceKind: "partition"})
 	key := "/kafscale/partition-leases/orders/0"
 	stolen := false
-	e.onOp = func(op, k string) {
-		// scheduling points: the operations that read-modify-write the lease key
+	e.onOpWho = func(who, op, k string) {
+		// scheduling points: the operations that read-modify-write the lease key (labelled with
+		// the calling broker so that a native replay gates the right thread)
 		if op == "txn" || op == "put" || op == "delete" {
-			vsym_Event(op + ":" + k)
+			vsym_Event(who + ":" + op + ":" + k)
 		}
 		w.check()
 	}
@@ -70,6 +71,7 @@ func VsymC18_SingleOwner() {
 				// (no lock: the predicate is evaluated atomically by the scheduler)
 				return w.a.session == nil || w.a.session.Lease() != dying
 			})
+			vsym_Event("etcd-drops-A's-keys") // (a named point, so that a native replay can place it)
 			e.expire(dying)
 		}
 		w.check()
@@ -102,3 +104,70 @@ func VsymC18_Twin() {
 	vsym_Assert(err != nil || !a.Owns("r") || vsym_Bool("z"), "C18/twin")
 }
 
+
+// VsymC18_TwoResources: broker A acquires two resources from two threads while its session ends
+// and broker B takes over the first one. The reply of a lease transaction is a scheduling point
+// too (the session can end between etcd committing and the broker seeing the answer).
+func VsymC18_TwoResources() {
+	e := newVsymEtcd()
+	ca, cb := e.client("A"), e.client("B")
+	a := NewLeaseManager(ca, LeaseManagerConfig{BrokerID: "A", Prefix: "/kafscale/partition-leases", ResourceKind: "partition"})
+	b := NewLeaseManager(cb, LeaseManagerConfig{BrokerID: "B", Prefix: "/kafscale/partition-leases", ResourceKind: "partition"})
+	check := func() {
+		vsym_Assert(!(a.Owns("orders/0") && b.Owns("orders/0")), "C18/at-most-one-broker-believes-it-owns-the-lease")
+	}
+	e.onOpWho = func(who, op, k string) {
+		if op == "txn" || op == "put" || op == "delete" {
+			vsym_Event(who + ":" + op + ":" + k)
+		}
+		check()
+	}
+	e.onOpDone = func(who, op, k string) {
+		if who == "A" {
+			vsym_Event(who + ":" + op + "-reply:" + k)
+		}
+	}
+	vsym_ExploreEvents()
+	vsym_DaemonsFirst()
+	vsym_PreemptionBound(vsym_Param("preempt"))
+	ctx := context.Background()
+	vsym_Go(func() {
+		_ = a.Acquire(ctx, "orders/0")
+		check()
+	})
+	vsym_Go(func() {
+		_ = a.Acquire(ctx, "orders/1")
+		check()
+	})
+	vsym_Go(func() {
+		vsym_Event("expire-A")
+		fa := ca.Lease.(*vsymEtcdFacade)
+		if l := e.leases[fa.lastLease]; fa.lastLease != 0 && l != nil && l.alive {
+			for _, k := range l.ka {
+				k.close()
+			}
+			l.ka = nil
+			dying := fa.lastLease
+			vsym_Await(func() bool { return a.session == nil || a.session.Lease() != dying })
+			vsym_Event("etcd-drops-A's-keys")
+			e.expire(dying)
+		}
+		check()
+		_ = b.Acquire(ctx, "orders/0")
+		check()
+	})
+	vsym_Join()
+	vsym_Settle()
+	vsym_Reach("quiescent2")
+	check()
+	owner := ""
+	if en, ok := e.data["/kafscale/partition-leases/orders/0"]; ok {
+		owner = string(en.value)
+	}
+	if a.Owns("orders/0") {
+		vsym_Assert(owner == "A", "C18/manager-ownership-backed-by-its-etcd-key")
+	}
+	if b.Owns("orders/0") {
+		vsym_Assert(owner == "B", "C18/manager-ownership-backed-by-its-etcd-key")
+	}
+}
